@@ -68,7 +68,7 @@ fn chain_batch(ctx: &mut Ctx, prop: &'static str, batch: &str, rule: &str, n: u6
 
 fn c06(tier: Tier, seed: u64) -> i32 {
     let mut ctx = Ctx::new("C06", tier, seed);
-    let n = ctx.n(6000, 400_000);
+    let n = ctx.n(15000, 400_000);
     // dense small num_tune (every value 0..60), all presets, randomised knobs
     let opts = SwarmOpts { allow_tune0: true, max_tune: 60, max_draws: 12, ..Default::default() };
     chain_batch(&mut ctx, "C06", "dense_small_tune", "swarm config (6 presets x knobs x target), num_tune uniform in 0..=60 incl. 0, fault-free; non-trivial = run crossed the warmup boundary with num_tune>0; distinct = distinct event-log digest", n, opts, |cfg, r| {
@@ -85,7 +85,7 @@ fn c06(tier: Tier, seed: u64) -> i32 {
         retune(cfg, nt);
     });
     // with density faults (all-divergent / mixed histories): the boundary must not move
-    let n3 = ctx.n(1500, 100_000);
+    let n3 = ctx.n(4000, 100_000);
     let opts = SwarmOpts { allow_tune0: true, max_tune: 40, max_draws: 10, ..Default::default() };
     chain_batch(&mut ctx, "C06", "faulty_histories", "as dense batch plus 1..6 recoverable-class density faults at seeded evaluation indices (divergent draws, stuck chain)", n3, opts, |cfg, r| {
         let k = r.range(1, 6);
@@ -132,7 +132,7 @@ pub fn fix_early_window(p: &mut crate::chain::Preset, nt: u64) {
 
 fn c16(tier: Tier, seed: u64) -> i32 {
     let mut ctx = Ctx::new("C16", tier, seed);
-    let n = ctx.n(4000, 300_000);
+    let n = ctx.n(10000, 300_000);
     let opts = SwarmOpts { allow_tune0: true, max_tune: 50, max_draws: 12, allow_dim0: true, max_dim: 12, ..Default::default() };
     chain_batch(&mut ctx, "C16", "swarm", "6 presets x all store_* flags x mass-matrix options x dimension 0..12 x num_tune 0..50 (incl. 0), fault-free and natural divergences (funnel); in a third of the runs set_position is called again before a seeded draw (multi-step history: the rebuilt transformation must be reported exactly once); non-trivial = history has a divergence or >1 transformation update", n, opts, |cfg, r| {
         if r.chance(0.2) {
@@ -142,7 +142,7 @@ fn c16(tier: Tier, seed: u64) -> i32 {
             cfg.reinit_at = Some(r.range(1, cfg.n_calls - 1));
         }
     });
-    let n2 = ctx.n(3000, 200_000);
+    let n2 = ctx.n(8000, 200_000);
     let opts = SwarmOpts { allow_tune0: false, max_tune: 40, max_draws: 10, max_dim: 6, ..Default::default() };
     chain_batch(&mut ctx, "C16", "with_faults", "as swarm plus 1..5 recoverable-class density faults (every kind) at seeded evaluation indices => divergent draws of every cause", n2, opts, |cfg, r| {
         let k = r.range(1, 5);
@@ -578,7 +578,7 @@ pub fn components_engine_a_math() -> J {
 
 fn c03(tier: Tier, seed: u64) -> i32 {
     let mut ctx = Ctx::new("C03", tier, seed);
-    let n = ctx.n(3000, 300_000);
+    let n = ctx.n(8000, 300_000);
     let opts = SwarmOpts { presets: crate::swarm::NUTS_PRESETS.to_vec(), allow_tune0: true, allow_dim0: true, max_tune: 40, max_draws: 10, max_dim: 8, ..Default::default() };
     ctx.run_batch("swarm", "NUTS presets x randomised maxdepth/mindepth/max_energy_error/target_integration_time/kinetic energy/extra_doublings x targets (incl. funnel, flat coordinate, dimension 0 and 1) x histories with natural and injected divergences; every draw is checked against the record of density evaluations of its trajectory (membership, logp/gradient of the returned state, index 0 iff not moved, depth/steps/index bounds, at least one step, maxdepth flag); non-trivial = at least one draw moved", n, |rs, _| {
         let mut cfg = gen_chain_cfg(rs, &opts);
@@ -598,7 +598,7 @@ fn c03(tier: Tier, seed: u64) -> i32 {
         }
         TrajScenario { cfg }
     });
-    let n2 = ctx.n(2000, 200_000);
+    let n2 = ctx.n(6000, 200_000);
     let opts2 = SwarmOpts { presets: vec![crate::swarm::PresetKind::DiagNuts], allow_tune0: false, max_tune: 40, max_draws: 8, max_dim: 6, ..Default::default() };
     ctx.run_batch("next_trajectory_start", "Diag NUTS, Euclidean, store_mass_matrix on, targets including scales 1e-12..1e12: the first evaluated position of every trajectory must be the leapfrog image of the previous draw under the reported scales, the step size in force and the momentum seen at the SimMath seam ('the next trajectory starts from it')", n2, |rs, _| {
         let mut cfg = gen_chain_cfg(rs, &opts2);
@@ -640,7 +640,7 @@ fn c05(tier: Tier, seed: u64) -> i32 {
         let mut r = Prng::sub(rs, "tweak");
         FaultScenario { cfg, enumerate: true, max_positions: 500, pairs: 40, pair_seed: r.next_u64() }
     });
-    let n2 = ctx.n(3000, 300_000);
+    let n2 = ctx.n(6000, 300_000);
     let opts2 = SwarmOpts { allow_tune0: true, max_tune: 60, max_draws: 20, max_dim: 8, ..Default::default() };
     ctx.run_batch("sampled_positions", "longer runs and harder targets (funnel, banana, heavy tails): 1..3 faults at seeded evaluation indices", n2, |rs, _| {
         let mut cfg = gen_chain_cfg(rs, &opts2);
@@ -660,7 +660,7 @@ fn c05(tier: Tier, seed: u64) -> i32 {
 fn c18(tier: Tier, seed: u64) -> i32 {
     use crate::props_mclmc::MclmcScenario;
     let mut ctx = Ctx::new("C18", tier, seed);
-    let n = ctx.n(4000, 400_000);
+    let n = ctx.n(12000, 400_000);
     let opts = SwarmOpts { presets: crate::swarm::MCLMC_PRESETS.to_vec(), allow_tune0: true, max_tune: 30, max_draws: 12, max_dim: 20, ..Default::default() };
     ctx.run_batch("swarm", "three MCLMC presets (Flow with the stub flow) x dimension 2..20 x L, subsample_frequency, step size, three trajectory kinds, switch fraction, dynamic_step_size on/off x targets (incl. funnel: natural divergences and retries); every ESH update / normalisation seen at the SimMath seam is compared with the closed form; history: step count = max(1, round(f*L/eps)), total integrated time = N*eps under retries, divergent draw leaves the position unchanged and is followed by a full refresh (momentum-draw count), integrator switch at the configured draw with a fresh normalised momentum; non-trivial = ESH updates were observed", n, |rs, _| {
         let mut cfg = gen_chain_cfg(rs, &opts);
@@ -693,7 +693,7 @@ fn c18(tier: Tier, seed: u64) -> i32 {
 fn c09(tier: Tier, seed: u64) -> i32 {
     use crate::props_sched_adapt::WindowScenario;
     let mut ctx = Ctx::new("C09", tier, seed);
-    let n = ctx.n(4000, 400_000);
+    let n = ctx.n(12000, 400_000);
     let presets = vec![crate::swarm::PresetKind::DiagNuts, crate::swarm::PresetKind::LowRankNuts, crate::swarm::PresetKind::DiagMclmc, crate::swarm::PresetKind::LowRankMclmc];
     let opts = SwarmOpts { presets, allow_tune0: false, max_tune: 300, max_draws: 4, max_dim: 4, allow_hard_targets: true, ..Default::default() };
     ctx.run_batch("swarm", "Diag/LowRank x NUTS/MCLMC x num_tune 1..300 x early_window, step_size_window, early/main switch frequency, update frequency, growth factor 1..3 x histories with every mixture of good and rejected draws (divergent / stuck draws produced by the fault injector and by hard targets); after every draw the hook-H4 counters (foreground, background, window) are checked against the window invariants: switch only with a full window and room for the next one, no missed switch, foreground-background constant between switches, geometric growth, nothing touched in the final window, first transformation change re-runs the step-size search (seen at the SimMath seam), switches rebuild the transformation; non-trivial = at least one switch", n, |rs, _| {
@@ -728,7 +728,7 @@ fn c09(tier: Tier, seed: u64) -> i32 {
 fn c07(tier: Tier, seed: u64) -> i32 {
     use crate::props_adapt::AdaptScenario;
     let mut ctx = Ctx::new("C07", tier, seed);
-    let n = ctx.n(5000, 500_000);
+    let n = ctx.n(12000, 500_000);
     let opts = SwarmOpts { presets: crate::swarm::NUTS_PRESETS.to_vec(), allow_tune0: false, max_tune: 150, max_draws: 5, max_dim: 6, ..Default::default() };
     ctx.run_batch("reference_recursion", "NUTS presets x randomised target_accept, k, t0, gamma, max_step_size (0.5..10), initial_step, jitter, dual averaging / Adam x targets x acceptance histories of every kind produced by the environment (mixed: fault injector and funnel; all-0: densities that always diverge; all-1: ExactNormal on a standard normal); the reference recursion (dual averaging with clamped iterates and count^-k weighted average / Adam) is fed the observed per-draw acceptance statistics (plain before the late phase, symmetric in it; late phase from the hook-H4 window counters) and must reproduce step_size_bar and step_size of every warmup draw to 1e-8; every step size finite, positive and <= max_step_size; non-trivial = more than 3 updates compared", n, |rs, _| {
         let mut cfg = gen_chain_cfg(rs, &opts);
@@ -796,7 +796,7 @@ fn c07(tier: Tier, seed: u64) -> i32 {
 fn c08(tier: Tier, seed: u64) -> i32 {
     use crate::props_adapt::AdaptScenario;
     let mut ctx = Ctx::new("C08", tier, seed);
-    let n = ctx.n(4000, 400_000);
+    let n = ctx.n(12000, 400_000);
     let presets = vec![crate::swarm::PresetKind::DiagNuts, crate::swarm::PresetKind::DiagNuts, crate::swarm::PresetKind::LowRankNuts, crate::swarm::PresetKind::DiagMclmc, crate::swarm::PresetKind::LowRankMclmc];
     let opts = SwarmOpts { presets, allow_tune0: false, max_tune: 80, max_draws: 4, max_dim: 10, ..Default::default() };
     ctx.run_batch("swarm", "Diag/LowRank presets with store_mass_matrix, store_transformed, store_gradient on x Gaussian targets (diagonal with condition number up to 1e12, dense), degenerate targets (flat coordinate, piecewise-linear Laplace coordinates started far in the tail => constant gradient, scales 1e-150..1e150), stuck chains and all-divergent windows (fault injector); oracles: every reported scale / eigenvalue / mean finite and positive, diagonal Gaussian recovered exactly (scales and mean to 1e-6, whitened gradient = -position) once the window holds >=4 accepted draws, a coordinate without gradient variance keeps its previous scale; non-trivial = at least one transformation update", n, |rs, _| {
@@ -838,7 +838,7 @@ fn c08(tier: Tier, seed: u64) -> i32 {
         }
         AdaptScenario { prop: "C08".into(), cfg }
     });
-    let n2 = ctx.n(200, 20_000);
+    let n2 = ctx.n(500, 20_000);
     ctx.run_batch("lowrank_exact", "low-rank presets (NUTS and MCLMC): (a) eigval_cutoff just above 1 (every direction is kept: the covariance 'fits the rank') on correlated Gaussians, (b) default cut-off on uncorrelated Gaussians with scales 1e-3..1e3 (rank 0 fits); (dimension 2..10, eigenvalues 0.05..20 in a random orthonormal basis, mean up to 1e8 standard deviations away from the origin, seeded start), num_tune 150..400: once warmup is over, the whitened gradient must equal minus the whitened position (fisher_distance = |y + grad_y|^2 <= 1e-8 (1 + |y|^2)) on every draw", n2, |rs, i| {
         let mut r = Prng::sub(rs, "lowrank_exact");
         let d = r.usize_in(2, 10);
@@ -917,7 +917,7 @@ fn c04(tier: Tier, seed: u64) -> i32 {
         };
         PosteriorScenario { preset, target, n_chains: 32, seed: r.next_u64(), n_truth: 2_000_000 }
     });
-    let n2 = ctx.n(32, 300);
+    let n2 = ctx.n(64, 300);
     ctx.run_batch("stationarity", "invariance of one NUTS transition (direct drive, fixed transformation and step size): N independent particles start from exact draws of the target and make k transitions; their distribution (every coordinate and the log density, 5 quantile levels) must still be the target's, compared with an independent reference sample by exact binomial z statistics (critical 6); valid whatever the mixing speed", n2, |rs, i| {
         gen_stationary(rs, "C04", i, quick)
     });
@@ -981,9 +981,9 @@ pub fn components_direct_drive() -> J {
 fn c01(tier: Tier, seed: u64) -> i32 {
     use crate::props_c01::gen_nuts_scenario;
     let mut ctx = Ctx::new("C01", tier, seed);
-    let n = ctx.n(4000, 400_000);
+    let n = ctx.n(8000, 400_000);
     ctx.run_batch("scripted_transitions", "scenario = target (Gaussians, Student-t, banana; dimension 1..8) x explicit diagonal or low-rank transformation (rank 0..d, random orthonormal eigenvectors) x Euclidean / ExactNormal x step size x maxdepth 1..6 x start x scripted momentum x scripted raw direction draws (incl. boundary values) x scripted selection thresholds. R1: from every state of the final block the real nuts::draw is re-run with the mirrored doubling choices and must visit the same states with the same depth and stopping reason; R2: with the same scripted thresholds the implementation selects the index the reference selection law (min(1, w_new/w_old) for the tree holding the start, w_new/(w_old+w_new) in sub-trees) selects; the sequence of random draws is the predicted one; R3: direction = sign bit of the raw uniform u32; tree building equals RefNuts (Appendix A). Divergent trajectories are outside the quantifier and skipped; near-ties skipped and counted. Non-trivial = depth >= 2", n, |rs, _| gen_nuts_scenario(rs));
-    let n2 = ctx.n(48, 400);
+    let n2 = ctx.n(96, 400);
     let quick = tier == Tier::Quick;
     ctx.run_batch("stationarity", "invariance, statistically: N independent particles start from exact i.i.d. draws of the target (Gaussians incl. correlated, Student-t, log-gamma, banana; dimension 1..4) and make 1/3/6 transitions of the real nuts::draw with a fixed transformation (identity, mismatched diagonal, low-rank), step size 0.1..1.2, maxdepth 1..6, default tree options; the particles must still be distributed as the target: per coordinate and for the log density the fraction below the 5/25/50/75/95% quantiles of an independent reference sample is binomial (z statistic, critical 6). Holds for any reversible kernel whatever its mixing speed; a biased selection, direction or acceptance rule shows as a drift", n2, |rs, i| gen_stationary(rs, "C01", i, quick));
     ctx.finish("exploration", components_direct_drive(), vec![
@@ -995,7 +995,7 @@ fn c01(tier: Tier, seed: u64) -> i32 {
 fn c02(tier: Tier, seed: u64) -> i32 {
     use crate::props_c01::gen_leapfrog_scenario;
     let mut ctx = Ctx::new("C02", tier, seed);
-    let n = ctx.n(6000, 600_000);
+    let n = ctx.n(20000, 600_000);
     ctx.run_batch("leapfrog_sequences", "sequences of 2..8 single leapfrog steps (both signs) of the real Hamiltonian::leapfrog from a scripted momentum, for explicit diagonal / low-rank transformations (dimension 1..64, rank 0..d), Euclidean and ExactNormal kinetic energy; every visited state (trajectory tap) is compared with a dense-matrix reference: x = F(y) + mu (inverse consistent with forward map), gradient pull-back F^T grad, documented log-determinant, energy = 1/2|v|^2 - logp - logdet, each step = textbook leapfrog in the original space for M^-1 = F F^T (ExactNormal: residual kick / rotation / kick), forward+backward returns the start, ExactNormal conserves the energy on a standard normal", n, |rs, _| gen_leapfrog_scenario(rs));
     ctx.finish("exploration", components_direct_drive(), vec![
         "weak fit for the family (pure function of its inputs except the re-derivation of whitened coordinates after a transformation change, which C03's next-trajectory oracle covers in adaptive chains); the simulator contributes the scripted momentum and the tap".into(),
